@@ -340,8 +340,14 @@ def start_line_exact(chk, prog, rid, cfg=None):
                     d = describe(prog, b, rv["ops"][rv["fields"].index(f)])
                     n += 1
                     bad = [c[1] for c in core.desc_calls(d) if core.re.search(LENIENT, c[1])]
+                    if f == "uri" and not bad:
+                        # the path is the target up to its first `?`, byte for byte: no search-and-slice, replacement or decoding on the way
+                        # (a "reduce absolute-form" step that looks for `://` anywhere truncates `/login?next=https://..`)
+                        bad = [c[1] for c in core.desc_calls(d) if core.re.search(
+                            r"::(find|rfind|split_at|replace|replacen|strip_prefix|strip_suffix|get|get_unchecked|rsplit|rsplitn|rsplit_once|split_off|truncate|drain|pop|remove|percent_decode|to_lowercase|to_ascii_lowercase)$|"
+                            r"ops::Index<[^>]*Range[^>]*>>?::index$|str::traits::<impl std::ops::Index<I> for str>::index$", c[1])]
                     chk.ob(rid, p, f"request line: the {f} token is taken exactly (no trimming / whitespace splitting)", not bad,
-                           f"the {f} passes through {core.short(bad[0]) if bad else ''}: a request line with a bare LF, a trailing blank or an extra token is accepted instead of answered 400",
+                           f"the {f} passes through {core.short(bad[0]) if bad else ''}: the request line is not taken as it was sent (a bare LF, a trailing blank or an extra token is accepted, or part of the target is cut away)",
                            where=b.where(bi), cfg=cfg)
     chk.floor(f"request-line tokens [{cfg or 'A'}]", n, 3)
 
